@@ -1,6 +1,6 @@
 """C13 / C15 / C06: bytecode codec and effect analysis of essential-asm (macro-generated code
 included) executed from MIR against an independent reading of asm.yml."""
-import os, sys
+import json, os, sys
 import z3
 from session import *      # noqa
 from h_vmops import AND, OR, NOT
@@ -17,7 +17,8 @@ def spec():
     if _SPEC is None:
         repo = os.environ.get("EBV_REPO_COPY") or "/repo"
         ops = asmspec.load(repo)
-        _SPEC = dict(ops=ops, by_code={o["opcode"]: o for o in ops})
+        pin = json.load(open(os.path.join(os.path.dirname(os.path.abspath(asmspec.__file__)), "pinned_opcodes.json")))
+        _SPEC = dict(ops=ops, by_code={o["opcode"]: o for o in ops}, pinned={o["opcode"]: o for o in pin})
     return _SPEC
 
 
@@ -58,8 +59,10 @@ def opcode_table(I, h):
     b = E.sym_int("b", "u8")
     r = h.call("asm", "<opcode::Op as TryFrom<u8>>::try_from", [b])
     valid = OR(*[int_binop("Eq", b, u8(c)) for c in sp["by_code"]])
+    pinned = OR(*[int_binop("Eq", b, u8(c)) for c in sp["pinned"]])
     if r.variant == "Err":
         check(E, valid, "a byte declared in asm.yml is rejected as invalid opcode")
+        check(E, pinned, "a byte of the pinned opcode table is rejected as invalid opcode (encoding no longer byte-compatible)")
         e = r.cells[0].v
         check(E, b_not(int_binop("Eq", e.cells[0].v, b)), "InvalidOpcodeError does not carry the offending byte")
         return "invalid"
@@ -69,6 +72,9 @@ def opcode_table(I, h):
     g, n = opcode_identity(r.cells[0].v)
     if (g, n) != (o["group"], o["name"]):
         raise Violation(f"byte {code:#04x} denotes {g}::{n}, asm.yml says {o['group']}::{o['name']}", E.model_for())
+    pn = sp["pinned"].get(code)
+    if pn is not None and (g, n) != (pn["group"], pn["name"]):
+        raise Violation(f"byte {code:#04x} denotes {g}::{n}, the pinned opcode table says {pn['group']}::{pn['name']} (encoding no longer byte-compatible)", E.model_for())
     back = h.call("asm", "<u8 as From<opcode::Op>>::from", [r.cells[0].v])
     check(E, b_not(int_binop("Eq", back, u8(code))), "u8::from(opcode) is not the byte it was parsed from")
     return "valid"
